@@ -31,8 +31,8 @@ func verifC01ReadRecords(buf []byte, consistentLen uint32, n uint16) ([][]byte, 
 	panic("bridged by the engine")
 }
 
-func verifC01NoBloom(n uint, fp float64) *bloom.BloomFilter { return nil }
-func verifC01NoStatsStr(segstats map[string]*structs.SegStats, cname string, valBytes []byte) {}
+func verifC01NoBloom(n uint, fp float64) *bloom.BloomFilter                                    { return nil }
+func verifC01NoStatsStr(segstats map[string]*structs.SegStats, cname string, valBytes []byte)  {}
 func verifC01NoStatsBool(segstats map[string]*structs.SegStats, cname string, valBytes []byte) {}
 func verifC01NoStatsNums(segstats map[string]*structs.SegStats, cname string, inNumType sutils.SS_IntUintFloatTypes, intVal int64,
 	uintVal uint64, fltVal float64, valBytes []byte) {
